@@ -102,7 +102,7 @@ func (c10) Gen(r *sim.RNG, tier string, idx int) *Scenario {
 			if r.Bool(0.5) {
 				sc.Ops[i].Cache = "prefilled-lib"
 			}
-			for u := range sc.World.Docs {
+			for _, u := range keys(sc.World.Docs) {
 				if u != sc.World.Root && r.Bool(0.6) {
 					sc.Ops[i].Pre = append(sc.Ops[i].Pre, u)
 				}
@@ -264,7 +264,7 @@ func (c18) Gen(r *sim.RNG, tier string, idx int) *Scenario {
 	for i := 0; i < n && len(ops) > 0; i++ {
 		op := ops[r.Intn(len(ops))]
 		op.Cache = "reuse"
-		for u := range sc.World.Docs {
+		for _, u := range keys(sc.World.Docs) {
 			if u != sc.World.Root && r.Bool(0.5) {
 				op.Pre = append(op.Pre, u)
 			}
